@@ -5,7 +5,7 @@ Trace-replay driver for the multiplexing model (`drv mux`).  Every action of the
 in the instrumented real run, so validation is a deterministic replay with `Mux.step`:
 
 ```
-case <id> nconn=<n> errs=<payload numbers whose handler raises>
+case <id> nconn=<n> errs=<payload numbers whose handler raises> [pend=<n>] [srv=<backlog+2>] [wire=<n>] [back=<n>]
 a submit <x> <id> | a ssubmit <x> <id> | a send <c> [x] | a srvRecv <c> [x] | a finish <c> <j>
 a respond <c> | a recv <c> [<k> <resp>] | a syield [<x> <resp>]
 end results=<k>:<resp>,...  sout=<x>:<resp>,...  quiet=<0|1>
@@ -23,7 +23,10 @@ def showPairs (l : List (Nat × Resp)) : String :=
 
 def mkCfg (kv : List (String × String)) : Cfg :=
   let errs := Drv.getL kv "errs"
-  { nconn := Drv.getN kv "nconn" 1, handler := fun x => if errs.contains x then .err x else .ok x }
+  { nconn := Drv.getN kv "nconn" 1, handler := fun x => if errs.contains x then .err x else .ok x,
+    pendCap := Drv.getN kv "pend" 2048, srvCap := Drv.getN kv "srv" 258,
+    -- the socket buffers are counted in bytes by the OS; in records they are unbounded for the replay
+    wireCap := Drv.getN kv "wire" 1000000000, backCap := Drv.getN kv "back" 1000000000 }
 
 def parseAct (ws : List String) : Option Act :=
   match ws with
